@@ -22,25 +22,39 @@ type c07ID struct {
 	path string
 	dest *destination.Destination       // one of the two is set
 	ri   *router_identity.RouterIdentity
+	buf  []byte // the private buffer the value was parsed from (nil for constructed values)
 }
 
 // c07Paths obtains the identity encoded by w through every API path that accepts it.
 func c07Paths(w []byte, k refmodel.KeysAndCert, withCtor bool) []c07ID {
 	var out []c07ID
-	if d, rem, err := destination.ReadDestination(w); err == nil && len(rem) == 0 {
-		d := d
-		out = append(out, c07ID{path: "destination.ReadDestination", dest: &d})
-	}
-	if d, rem, err := destination.NewDestinationFromBytes(w); err == nil && len(rem) == 0 {
-		out = append(out, c07ID{path: "destination.NewDestinationFromBytes", dest: d})
-	}
-	if ri, rem, err := router_identity.ReadRouterIdentity(w); err == nil && len(rem) == 0 {
-		out = append(out, c07ID{path: "router_identity.ReadRouterIdentity", ri: ri})
-		d := ri.AsDestination()
-		out = append(out, c07ID{path: "RouterIdentity.AsDestination", dest: &d})
-	}
-	if ri, rem, err := router_identity.NewRouterIdentityFromBytes(w); err == nil && len(rem) == 0 {
-		out = append(out, c07ID{path: "router_identity.NewRouterIdentityFromBytes", ri: ri})
+	// every parsing path gets a private copy of the bytes: alone, and embedded in a longer buffer
+	// (two different continuations), as identities arrive inside RouterInfos, LeaseSets and messages
+	tails := map[string][]byte{"": nil, " (embedded, tail ee..)": bytes.Repeat([]byte{0xee}, 7), " (embedded, tail = a second copy)": w}
+	for _, tn := range []string{"", " (embedded, tail ee..)", " (embedded, tail = a second copy)"} {
+		tail := tails[tn]
+		mk := func() []byte { return append(append([]byte(nil), w...), tail...) }
+		b := mk()
+		if d, rem, err := destination.ReadDestination(b); err == nil && bytes.Equal(rem, tail) {
+			d := d
+			out = append(out, c07ID{path: "destination.ReadDestination" + tn, dest: &d, buf: b})
+		}
+		b = mk()
+		if d, rem, err := destination.NewDestinationFromBytes(b); err == nil && bytes.Equal(rem, tail) {
+			out = append(out, c07ID{path: "destination.NewDestinationFromBytes" + tn, dest: d, buf: b})
+		}
+		b = mk()
+		if ri, rem, err := router_identity.ReadRouterIdentity(b); err == nil && bytes.Equal(rem, tail) {
+			out = append(out, c07ID{path: "router_identity.ReadRouterIdentity" + tn, ri: ri, buf: b})
+			if tn == "" {
+				d := ri.AsDestination()
+				out = append(out, c07ID{path: "RouterIdentity.AsDestination", dest: &d})
+			}
+		}
+		b = mk()
+		if ri, rem, err := router_identity.NewRouterIdentityFromBytes(b); err == nil && bytes.Equal(rem, tail) {
+			out = append(out, c07ID{path: "router_identity.NewRouterIdentityFromBytes" + tn, ri: ri, buf: b})
+		}
 	}
 	if withCtor {
 		if d, err := adapt.Destination(k); err == nil {
@@ -93,16 +107,49 @@ func c07Base(r *core.Run, w []byte, k refmodel.KeysAndCert, desc string, withCto
 	// RouterInfo.IdentHash through a minimal RouterInfo carrying this identity
 	if !refmodel.ProhibitedRISig(k.SigType) && len(ids) > 0 {
 		ri := refmodel.RouterInfo{Ident: k, Published: gen.PublishedMs, Sig: make([]byte, refmodel.SigTable[k.SigType].SigLen)}
-		if v, _, err := router_info.ReadRouterInfo(ri.Bytes()); err == nil {
+		rib := ri.Bytes()
+		if v, _, err := router_info.ReadRouterInfo(rib); err == nil {
 			r.Evaluations.Add(1)
 			h, err := v.IdentHash()
 			if err != nil || [32]byte(h) != sum {
 				r.Violate("C07|hash|RouterInfo.IdentHash", fmt.Sprintf("IdentHash() = %x, SHA-256 of the identity's wire bytes = %x (err %v) (%s)", h, sum, err, desc), cs)
 			}
+			// history: the caller recycles its buffer; the hash is a function of the bytes that were parsed
+			for i := range rib {
+				rib[i] = 0x5a
+			}
+			h2, err := v.IdentHash()
+			if err != nil || [32]byte(h2) != sum {
+				r.Violate("C07|hash|RouterInfo.IdentHash|after-the-input-buffer-was-overwritten", fmt.Sprintf("IdentHash() = %x after the parse buffer was overwritten, %x before (err %v) (%s)", h2, sum, err, desc), cs)
+			}
+		}
+	}
+	for _, id := range ids {
+		if id.buf == nil {
+			continue
+		}
+		for i := range id.buf {
+			id.buf[i] = 0x5a
+		}
+		r.Evaluations.Add(1)
+		if b, err := id.bytes(); err != nil || !bytes.Equal(b, w) {
+			r.Violate("C07|serialisation|after-the-input-buffer-was-overwritten|"+pathClass(id.path), fmt.Sprintf("%s: identity bytes change when the parse buffer is overwritten (%s)", id.path, desc), cs)
+		}
+		if id.dest != nil {
+			if h, err := id.dest.Hash(); err != nil || h != sum {
+				r.Violate("C07|hash|after-the-input-buffer-was-overwritten|"+pathClass(id.path), fmt.Sprintf("%s: Hash() changes when the parse buffer is overwritten (%s)", id.path, desc), cs)
+			}
 		}
 	}
 	r.Distinct(w)
 	return ids
+}
+
+func pathClass(p string) string {
+	if i := strings.Index(p, " ("); i > 0 {
+		return p[:i]
+	}
+	return p
 }
 
 func c07One(r *core.Run, s gen.Signed, desc string) {
@@ -173,7 +220,7 @@ func c07One(r *core.Run, s gen.Signed, desc string) {
 }
 
 func runC07(r *core.Run) {
-	r.Rule = "E1: every identity of the KeysAndCert generator within 2 (thorough 3) variations (every supported signing/crypto pair, NULL / KEY / KEY+extra-payload certificates, marker/zero/ff padding and key fills) through ReadDestination, NewDestinationFromBytes, ReadRouterIdentity, NewRouterIdentityFromBytes, AsDestination, NewDestination, NewRouterIdentity and RouterInfo.IdentHash; for each base EVERY byte position x {^01, ^ff}. Oracle: Hash == SHA-256(wire bytes) (standard library), Base32Address == independent bit-level base32 + suffix (60 chars), Base64 decodes back, Equals/Equal <=> byte equality. non-trivial = distinct identity encodings whose hash/address were compared"
+	r.Rule = "E1: every identity of the KeysAndCert generator within 2 (thorough 3) variations (every supported signing/crypto pair, NULL / KEY / KEY+extra-payload certificates, marker/zero/ff padding and key fills) through ReadDestination, NewDestinationFromBytes, ReadRouterIdentity, NewRouterIdentityFromBytes, AsDestination, NewDestination, NewRouterIdentity and RouterInfo.IdentHash, each parser on the exact bytes AND embedded in two longer buffers (all resulting values must compare equal), and again after the parse buffers were overwritten; for each base EVERY byte position x {^01, ^ff}. Oracle: Hash == SHA-256(wire bytes) (standard library), Base32Address == independent bit-level base32 + suffix (60 chars), Base64 decodes back, Equals/Equal <=> byte equality. non-trivial = distinct identity encodings whose hash/address were compared"
 	bound := 2
 	if !r.Quick() {
 		bound = 3
